@@ -185,7 +185,7 @@ UNALIGNED_TWINS = {
 }
 
 
-@rule("R07.7", props=["C07", "C08", "C16"], floor=6, title="the *_unaligned query methods of functions and filters compute exactly what their aligned twins compute, with the unaligned read in place of the aligned one")
+@rule("R07.7", props=["C07", "C08", "C16"], scope_all=True, floor=6, title="the *_unaligned query methods of functions and filters compute exactly what their aligned twins compute, with the unaligned read in place of the aligned one")
 def r07_7(ctx, rr):
     """get_by_sig_unaligned / get_unaligned / contains_by_sig_unaligned / contains_unaligned must address the
     same cells (shard_edge.edge(sig)), combine them the same way and compare with the same mask as
